@@ -200,12 +200,33 @@ impl Spec {
     pub fn background_colour(&self) -> Colour {
         self.background.clone().unwrap_or(Colour::Rgba([255, 255, 255, 255]))
     }
+    /// Builder configured through a call HISTORY that ends in these option values: the setters are called in
+    /// a shuffled order, some of them first with other values (the last value wins), image() possibly again
+    /// after the size/gap/position setters. The history is a deterministic function of the spec (so a replay
+    /// makes the same calls). A configuration is its final values; how they were reached must not matter.
     pub fn svg_builder(&self) -> SvgBuilder {
+        let mut rng = Rng::new(oracle::rng::fnv(self.describe().as_bytes()) ^ 0x0bde);
+        let mut b = SvgBuilder::default();
+        for op in self.noisy_history(&mut rng) {
+            apply_op(&mut b, &op);
+        }
+        b
+    }
+    pub fn image_builder(&self) -> ImageBuilder {
+        let mut rng = Rng::new(oracle::rng::fnv(self.describe().as_bytes()) ^ 0x0bde);
+        let mut b = ImageBuilder::default();
+        for op in self.noisy_history(&mut rng) {
+            apply_image_op(&mut b, &op);
+        }
+        b
+    }
+    /// Builder configured by one call per option in a fixed order (the reference of the history monitors).
+    pub fn svg_builder_canonical(&self) -> SvgBuilder {
         let mut b = SvgBuilder::default();
         apply(&mut b, self);
         b
     }
-    pub fn image_builder(&self) -> ImageBuilder {
+    pub fn image_builder_canonical(&self) -> ImageBuilder {
         let mut b = ImageBuilder::default();
         apply(&mut b, self);
         if let Some(w) = self.fit_width {
